@@ -65,6 +65,9 @@ def check(run):
     run.attempt(cache, run, p, km)
     from . import rexpy_eval
     run.attempt(rexpy_eval.hook_rule, run, p, 'C01')
+    # constraints discovered once and checked twice (verify_df, then detect_df, with the same dictionary)
+    from .c09 import nomutate
+    run.attempt(nomutate, run, p, 'C01-NOMUTATE')
     run.attempt(datelang, run, p)
     run.attempt(rexclosure, run, p)
     from .common import observed_rule
